@@ -608,6 +608,8 @@ def get_attr(E, obj, attr, fr, node):
                 return Bound(obj, attr)
             cv = class_attr(E, cd.key, attr)
             if cv is not NOATTR:
+                if isinstance(cv, Ref) and E.cell(cv)[0] == "obj" and find_method(E, E.cell(cv)[1].key, "__get__"):
+                    return call_method(E, cv, "__get__", [obj, None], {}, fr, node)   # descriptor protocol
                 return cv
             if attr in ("get", "clear", "popitem", "keys", "items", "values", "__contains__") and not E.spec_mode:
                 return Bound(obj, attr)    # possibly a collections.abc mixin method (resolved at the call)
